@@ -3,8 +3,8 @@
 From Coq Require Import String List Bool NArith ZArith.
 From OP Require Import Base.Str Base.Check Base.ParserTypes Base.Res Base.Json Base.Sx Base.DTree
                        Gen.GParser Gen.GChecks Gen.GPolicy
-                       Model.Leaf Model.SR Model.Tokenize Model.Print Model.Eval Model.Trace Model.Enforce
-                       Spec.Grammar Spec.ListRule.
+                       Model.Leaf Model.SR Model.Tokenize Model.Print Model.Eval Model.Trace Model.Enforce Model.CheckRules
+                       Spec.Grammar Spec.ListRule Spec.Template Spec.LeafSpec.
 Import ListNotations.
 Set Implicit Arguments.
 Local Open Scope Z_scope.
@@ -308,6 +308,47 @@ Definition suite_spec_c02 (args : list sx) : sx :=
   | _ => bad
   end.
 
+Definition dpart (x : sx) : option part :=
+  match x with
+  | L [A 0; t] => match dstr t with Some t' => Some (PLit t') | None => None end
+  | L [A 1; k] => match dstr k with Some k' => Some (PHole k') | None => None end
+  | _ => None
+  end.
+
+(* leaf oracles: [0; parts; tgt; creds] role,  [1; lit; path; parts; tgt; creds] generic
+   -> [template text; well-formed?; documented decision] *)
+Definition suite_spec_leaf (args : list sx) : sx :=
+  match args with
+  | [A 0; ps; tgt; creds] =>
+      match dlist dpart ps, djv tgt, djv creds with
+      | Some ps', Some t, Some c =>
+          L [sx_of_str (tpl_text ps'); sx_of_bool (forallb wf_part ps'); sx_of_bool (spec_role ps' t c)]
+      | _, _, _ => bad end
+  | [A 1; lit; path; ps; tgt; creds] =>
+      match dlit lit, dlist dstr path, dlist dpart ps, djv tgt, djv creds with
+      | Some l, Some pa, Some ps', Some t, Some c =>
+          L [sx_of_str (tpl_text ps'); sx_of_bool (forallb wf_part ps');
+             sx_of_bool (spec_generic l pa ps' t c)]
+      | _, _, _, _, _ => bad end
+  | _ => bad
+  end.
+
+(* check_rules: [extra; rules; skip_undefined] -> [undefined names; cyclic names; result] *)
+Definition suite_check_rules (args : list sx) : sx :=
+  match args with
+  | [ex; rules; skip] =>
+      match dextra ex with
+      | Some ex' =>
+          match dlist (dpair dstr (dcheck ex')) rules, dbool skip with
+          | Some rs, Some sk =>
+              L [sx_of_list sx_of_str (undefined_names rs sk);
+                 sx_of_list sx_of_str (cyclic_names rs);
+                 sx_of_bool (check_rules rs sk)]
+          | _, _ => bad end
+      | None => bad end
+  | _ => bad
+  end.
+
 Definition wire_main (x : sx) : sx :=
   match x with
   | L (A 1 :: args) => suite_tokenize args
@@ -317,5 +358,7 @@ Definition wire_main (x : sx) : sx :=
   | L (A 5 :: args) => suite_spec_c01 args
   | L (A 6 :: args) => suite_spec_list args
   | L (A 7 :: args) => suite_spec_c02 args
+  | L (A 8 :: args) => suite_spec_leaf args
+  | L (A 9 :: args) => suite_check_rules args
   | _ => sx_err 1
   end.
